@@ -1,6 +1,6 @@
 (* C05 -- audited obligations.  Models: coq/Grid/{QVec,IntLin,GridSem,GridRef}.v *)
-From Coq Require Import List ZArith QArith Bool.
-Require Import PPLV.Grid.QVec PPLV.Grid.IntLin PPLV.Grid.GridSem PPLV.Grid.GridRef.
+From Coq Require Import List ZArith QArith Qabs Bool.
+Require Import PPLV.Grid.QVec PPLV.Grid.IntLin PPLV.Grid.GridSem PPLV.Grid.GridRef PPLV.Grid.GridFreq.
 Import ListNotations.
 Local Open Scope Q_scope.
 
@@ -75,6 +75,18 @@ Theorem join_least : forall n G1 G2 C, dims_ok n C = true ->
   (forall x, in_qgens n G1 x -> sat_cgs C x) -> (forall x, in_qgens n G2 x -> sat_cgs C x) ->
   forall x, in_qgens n (join G1 G2) x -> sat_cgs C x.
 Proof. exact GridRef.join_least. Qed.
+
+(* Grid::frequency: the values of a.x + b on the grid are exactly v + fr Z (fr >= 0; fr = 0: constant), and v is
+   a value of least absolute value; "undefined" only for the empty grid or when every rational is a value *)
+Theorem frequency_spec : forall n G a b fr v, frequency n G a b = Ans (Freq fr v) ->
+  0 <= fr /\
+  (forall x, in_qgens n G x -> exists k : Z, expr_val a b x == v + inject_Z k * fr) /\
+  (forall k : Z, exists x, in_qgens n G x /\ expr_val a b x == v + inject_Z k * fr) /\
+  (forall x, in_qgens n G x -> Qabs v <= Qabs (expr_val a b x)).
+Proof. exact frequency_defined. Qed.
+Theorem frequency_undefined_spec : forall n G a b, frequency n G a b = Ans NoFreq ->
+  (forall x, ~ in_qgens n G x) \/ (forall q : Q, exists x, in_qgens n G x /\ expr_val a b x == q).
+Proof. exact frequency_undefined. Qed.
 
 (* ---------- stated, NOT proved (kept as Props; nothing depends on them) ---------- *)
 (* grid_incl_sound / grid_equiv_sound / grid_dd_check_sound are the proved halves of these: *)
